@@ -298,7 +298,7 @@ def run(ctx):
             # a comparison of a flag with 1 (either way round), the flags coming from
             # the completion observer, and a still-present test on the node
             cmp1 = any(
-                isinstance(x, ast.Compare) and len(x.ops) == 1 and isinstance(x.ops[0], ast.Eq)
+                isinstance(x, ast.Compare) and len(x.ops) == 1 and isinstance(x.ops[0], (ast.Eq, ast.NotEq))
                 and any(isinstance(y, ast.Constant) and y.value == 1 for y in (x.left, x.comparators[0]))
                 for x in own_nodes(f.node)
             )
